@@ -273,7 +273,10 @@ static void cb_exit(int slot, int cb) {
     orc_cb_exit(slot, cb);
     sample_states("cb-exit");
     sim::tr(CB_NAMES[cb], slot, 0);
+    size_t depth = W->frames.size();
     W->frames.pop_back();
+    for (auto &o : W->slots[slot].occ_started) if (o.end == UINT64_MAX && o.depth >= depth) o.end = R->gseq;
+    for (auto &o : W->slots[slot].occ_stopped) if (o.end == UINT64_MAX && o.depth >= depth) o.end = R->gseq;
 }
 
 static bool cb_start(m_mod_t *self) {
@@ -482,7 +485,7 @@ static void loop_end(int rc) {
     // model: a non-persistent context left without modules is released when the loop returns
     if (W->has_ctx && !(W->ctx_flags & M_CTX_PERSIST)) {
         int left = 0;
-        for (auto &o : W->slots) if (o.ctx_gen == W->ctx_registrations && o.st != ST_NONE && o.st != ST_ZOMBIE) left++;
+        for (auto &o : W->slots) if (o.ctx_gen == W->ctx_registrations && o.st != ST_NONE && o.st != ST_ZOMBIE && !frame_on_stack("dereg", o.idx)) left++;   // (a module whose deregistration is in progress has left the context already)
         if (left == 0) W->has_ctx = false;
     }
 }
@@ -783,7 +786,7 @@ void exec_op(const Op &op, bool in_cb, int cb_slot) {
         if (rc == 0 && W->has_ctx && !(W->ctx_flags & M_CTX_PERSIST) && !W->ctx_looping && s.ctx_gen == W->ctx_registrations) {
             // model: an idle non-persistent context is released with its last module
             int left = 0;
-            for (auto &o : W->slots) if (o.ctx_gen == W->ctx_registrations && o.st != ST_NONE && o.st != ST_ZOMBIE) left++;
+            for (auto &o : W->slots) if (o.ctx_gen == W->ctx_registrations && o.st != ST_NONE && o.st != ST_ZOMBIE && !frame_on_stack("dereg", o.idx)) left++;   // (a module whose deregistration is in progress has left the context already)
             bool in_ctx_dereg = frame_on_stack_any("ctx_dereg");
             if (left == 0 && !in_ctx_dereg) W->has_ctx = false;
         }
